@@ -10,6 +10,8 @@
 (*   req(x, new)      request x written; new: on a new connection          *)
 (*   feed(x, n)       n more items of the stream reached the client        *)
 (*   rd(x, data)      a non-empty response_data notification               *)
+(*                    (rd and dl acknowledge the output of the model's     *)
+(*                    read steps, see TRd)                                 *)
 (*   dl(x, data)      a non-empty write to the download file               *)
 (*   stall(x)         the client blocked with nothing in flight            *)
 (*   done(x, out, closed, left, unseen)                                    *)
@@ -24,8 +26,9 @@ NT    == Len(Batch)
 
 VARIABLES tid, l,
           fedq,    \* items announced by feed events and not yet taken by a model step
-          dack     \* octets of delivered[x] acknowledged by dl events
-tvars == <<vars, tid, l, fedq, dack>>
+          dack,    \* octets of delivered[x] acknowledged by dl events
+          rack     \* octets of recorded[x] acknowledged by rd events
+tvars == <<vars, tid, l, fedq, dack, rack>>
 
 Ev  == Batch[tid].ev
 Cur == Ev[l]
@@ -33,7 +36,7 @@ Is(name) == l <= Len(Ev) /\ Cur.e = name
 Step   == l' = l + 1 /\ UNCHANGED tid
 Silent == UNCHANGED <<tid, l>>
 
-TInit == /\ tid \in 1..NT /\ l = 1 /\ fedq = 0 /\ dack = 0
+TInit == /\ tid \in 1..NT /\ l = 1 /\ fedq = 0 /\ dack = 0 /\ rack = 0
          /\ InitWith(Batch[tid].msgs)
 
 \* a model step takes from `net` exactly what the feed events announced
@@ -48,31 +51,36 @@ ReadStep ==
   \/ LenEOF \/ CloseEOF \/ ChBodyEOF
 
 TReq == /\ Is("req") /\ Step /\ Cur.x = x
-        /\ fedq = 0 /\ UNCHANGED <<fedq, dack>>
+        /\ fedq = 0 /\ UNCHANGED <<fedq, dack, rack>>
         /\ Fresh = Cur.new
         /\ Start
 
 TFeed == /\ Is("feed") /\ Step
          /\ fedq' = fedq + Cur.n
-         /\ UNCHANGED <<vars, dack>>
+         /\ UNCHANGED <<vars, dack, rack>>
 
+\* response_data notifications and writes to the download file acknowledge, in order, what the model's read steps
+\* produced; every read step waits until both are fully acknowledged (so each step's output is bound to the events
+\* that follow it, whether the code passes a line on at once or holds it back until the header block is complete)
 TRd == /\ Is("rd") /\ Step /\ Cur.x = x
-       /\ dack = Len(delivered[x]) /\ UNCHANGED dack
-       /\ ReadStep /\ FeedOK
-       /\ recorded'[x] = recorded[x] \o Cur.data
+       /\ rack + Len(Cur.data) <= Len(recorded[x])
+       /\ SubSeq(recorded[x], rack + 1, rack + Len(Cur.data)) = Cur.data
+       /\ rack' = rack + Len(Cur.data)
+       /\ UNCHANGED <<vars, fedq, dack>>
 
 TDl == /\ Is("dl") /\ Step /\ Cur.x = x
        /\ dack + Len(Cur.data) <= Len(delivered[x])
        /\ SubSeq(delivered[x], dack + 1, dack + Len(Cur.data)) = Cur.data
        /\ dack' = dack + Len(Cur.data)
-       /\ UNCHANGED <<vars, fedq>>
+       /\ UNCHANGED <<vars, fedq, rack>>
 
 TStall == /\ Is("stall") /\ Step /\ Cur.x = x
-          /\ fedq = 0 /\ UNCHANGED <<fedq, dack>>
+          /\ fedq = 0 /\ UNCHANGED <<fedq, dack, rack>>
           /\ Stall
 
 TDone == /\ Is("done") /\ Step /\ Cur.x = x
          /\ dack = Len(delivered[x]) /\ dack' = 0
+         /\ rack = Len(recorded[x]) /\ rack' = 0
          /\ fedq = 0 /\ UNCHANGED fedq
          /\ (Fin \/ FinNb \/ RaiseErr)
          /\ outcome'[Cur.x] = Cur.out /\ connClosed'[Cur.x] = Cur.closed
@@ -80,9 +88,8 @@ TDone == /\ Is("done") /\ Step /\ Cur.x = x
 
 \* steps of the model that produce no event in the recording
 TSilent == /\ Silent
-           /\ dack = Len(delivered[x]) /\ UNCHANGED dack
+           /\ dack = Len(delivered[x]) /\ rack = Len(recorded[x]) /\ UNCHANGED <<dack, rack>>
            /\ (Body \/ LenDone \/ ReadStep) /\ FeedOK
-           /\ recorded' = recorded /\ delivered' = delivered
 
 TNext == TReq \/ TFeed \/ TRd \/ TDl \/ TStall \/ TDone \/ TSilent
 
